@@ -65,9 +65,18 @@ fn main() {
             // judge raw inputs (files) with the arbitrary-input oracle; exit 1 if any violates
             report::install_panic_hook();
             let mut bad = 0;
-            for f in &args[2..] {
+            let target = arg(&args, "--target").unwrap_or("decode").to_string();
+            for f in args[2..].iter().filter(|a| !a.starts_with("--") && **a != target) {
                 let bytes = std::fs::read(f).expect("read input");
-                for (sig, detail) in vh::fuzz::judge_bytes(&bytes) {
+                let verdicts = match target.as_str() {
+                    "encode" => vh::fuzz::judge_encode(&bytes),
+                    "roundtrip" => vh::fuzz::judge_roundtrip(&bytes),
+                    "apdu" => vh::fuzz::judge_apdu(&bytes),
+                    "idents" => vh::fuzz::judge_idents(&bytes),
+                    "arb" => vh::fuzz::judge_arb(&bytes),
+                    _ => vh::fuzz::judge_bytes(&bytes),
+                };
+                for (sig, detail) in verdicts {
                     println!("JUDGE {} {} :: {}", f, sig, detail.chars().take(400).collect::<String>());
                     bad += 1;
                 }
@@ -77,6 +86,9 @@ fn main() {
         "corpus" => {
             // seed corpus + dictionary for the libFuzzer stage
             let dir = args.get(2).expect("dir").clone();
+            if let Some(l) = arg(&args, "--literals") {
+                vh::schema::load_literals(l);
+            }
             let n: u64 = arg(&args, "--n").and_then(|s| s.parse().ok()).unwrap_or(600);
             let seed: u64 = arg(&args, "--seed").and_then(|s| s.parse().ok()).unwrap_or(1);
             std::fs::create_dir_all(&dir).expect("mkdir");
@@ -108,6 +120,9 @@ fn main() {
             for b in ["\\xa0", "\\xf4", "\\xf5", "\\xf6", "\\x18\\x18", "\\x19\\x01\\x00", "\\x1a\\x00\\x01\\x00\\x00", "\\x58\\x20", "\\x78\\x40", "\\x26", "\\x27", "\\x38\\x18"] {
                 d.push_str(&format!("\"{}\"\n", b));
             }
+            for w in vh::schema::literals().texts.iter().filter(|w| w.is_ascii() && !w.contains('"') && !w.contains('\\') && w.len() > 1) {
+                d.push_str(&format!("\"{}\"\n", w));
+            }
             std::fs::write(format!("{}.dict", dir), d).expect("dict");
             println!("{} seeds", k);
         }
@@ -128,6 +143,9 @@ fn main() {
                 })
                 .unwrap_or((0u64, 1u64));
             let out = arg(&args, "--out").unwrap_or("-").to_string();
+            if let Some(l) = arg(&args, "--literals") {
+                vh::schema::load_literals(l);
+            }
             let mut rep = Rep::new(&prop, tier, seed, shard, nshards);
             rep.light = args.iter().any(|a| a == "--light");
             rep.verbose = args.iter().any(|a| a == "--verbose");
